@@ -57,6 +57,16 @@ Theorem C17_matcher_event_renaming : forall (rho : Z -> Z) ar lots sched evs,
   run_matcher ar lots sched (map (ren_ev rho) evs) = map_res (map (ren_frac rho)) (run_matcher ar lots sched evs).
 Proof. exact matcher_event_renaming. Qed.
 
+(** end to end for one asset: if the out-transactions of an asset carry other ids (the artificial FEE rows do when other
+    assets were processed before), the fractions are the same up to that renaming -- provided the renaming leaves the
+    rows of acquisitions and transfers alone and is injective on the rows of the taxable events *)
+Theorem C17_fractions_up_to_out_row_renaming : forall (rho : Z -> Z) t,
+  (forall a, In a (t_ins t) -> rho (i_row a) = i_row a) ->
+  (forall a, In a (t_intras t) -> rho (x_row a) = x_row a) ->
+  (forall x y, In x (map t_row (taxable_unsorted t)) -> In y (map t_row (taxable_unsorted t)) -> rho x = rho y -> x = y) ->
+  forall b sched, fractions_of b sched (ren_txs rho t) = map_res (map (ren_frac rho)) (fractions_of b sched t).
+Proof. exact fractions_out_renaming. Qed.
+
 (** (3) *)
 Theorem C17_assets_order_independent : forall l l', Permutation l l' -> sort_leb str_leb l = sort_leb str_leb l'.
 Proof. exact assets_order_independent. Qed.
@@ -75,6 +85,7 @@ Print Assumptions C17_pipeline_perm_invariant.
 Print Assumptions C17_counter_only_renames_artificial_ids.
 Print Assumptions C17_artificial_ids_below_counter.
 Print Assumptions C17_matcher_event_renaming.
+Print Assumptions C17_fractions_up_to_out_row_renaming.
 Print Assumptions C17_assets_order_independent.
 Print Assumptions C17_run_config_order_independent.
 Print Assumptions C17_yearly_lines_order_independent.
